@@ -8,7 +8,7 @@
 //	SW <ver> <comp> <reads> <chunks>   SnapshotWriter at the real block size, then
 //	   read back / validate the produced file;  ops: w <hex>
 //	RF                           operations on a given file image
-//	   ops: file <hex> | rs <reads> | vs <chunks> | fo <bit> <n> | fv <bit> <chunks>
+//	   ops: file <hex> | rs <reads> | vs <chunks> | fo <bit> <n> | fx <bit> <reads> | fv <bit> <chunks>
 //	        | to <len> <n> | tv <len> <chunks> | sh | sk
 //	CZ <comp>                    compressor chain at the snapshotter level, monitor only
 //	   ops: w <hex>
@@ -662,6 +662,21 @@ func runRF(id string, ops []string, st *vh.Stats) string {
 			if s.failed {
 				st.Count("rf-flip-read-detected")
 			}
+		case "fx":
+			// flipped copy, exactly the given reads (no extra Read probing for EOF), Close
+			b, _ := strconv.Atoi(f[1])
+			g := flip(file, b)
+			if g == nil {
+				toks = append(toks, "-")
+				continue
+			}
+			s := readSession(g, ints(f[2]))
+			toks = append(toks, "fx:"+s.str)
+			checkModified(id, fmt.Sprintf("bit %d flipped, reads %s then Close", b, f[2]), b, base, file, ints(f[2]), s, st)
+			st.Count("rf-flip-read-exact")
+			if s.failed {
+				st.Count("rf-flip-read-detected")
+			}
 		case "fv":
 			b, _ := strconv.Atoi(f[1])
 			g := flip(file, b)
@@ -720,6 +735,9 @@ func runRF(id string, ops []string, st *vh.Stats) string {
 				if sh != "1" || !s.complete || !bytes.Equal(s.data, c14.GetEmptyLRUSession()) || verdict(nf, []int{len(nf)}) != "A" {
 					st.Violation(id, fmt.Sprintf("shrink: shrunk file not loadable as an empty snapshot: shrunk=%s session=%s", sh, s.str))
 				}
+				if d, failed := loadVia(nf); failed || !bytes.Equal(d, c14.GetEmptyLRUSession()) {
+					st.Violation(id, fmt.Sprintf("shrink: the shrunk snapshot does not load as the empty payload through the decompressor its header names (compression type %d): loaded %s failed=%v", s.comp, vh.Hex(d), failed))
+				}
 			}
 			st.Count("rf-shrink")
 		default:
@@ -727,6 +745,51 @@ func runRF(id string, ops []string, st *vh.Stats) string {
 		}
 	}
 	return fmt.Sprintf("%s RF %s", id, strings.Join(toks, " "))
+}
+
+// loadVia reads a file image the way snapshotter.Load does: SnapshotReader, then the
+// decompressor named by the file's own header, to the end, Close.
+func loadVia(img []byte) (data []byte, failed bool) {
+	lfs := newFS()
+	putFile(lfs, fp, img)
+	p := vh.Catch(func() {
+		r, h, err := c14.NewSnapshotReader(fp, lfs)
+		if err != nil {
+			failed = true
+			return
+		}
+		cr := c14.NewDecompressor(h.CompressionType, r)
+		d, err := io.ReadAll(cr)
+		data = d
+		if err != nil {
+			failed = true
+		}
+		if err := cr.Close(); err != nil {
+			failed = true
+		}
+	})
+	if p != "" {
+		failed = true
+	}
+	return
+}
+
+// shrinkLoads: ShrinkSnapshot on the image, then the shrunk file must load (header
+// selected decompressor) as exactly the empty session table and be reported as shrunk
+func shrinkLoads(id, what string, img []byte, st *vh.Stats) {
+	fs := newFS()
+	putFile(fs, fp, img)
+	nfp := dir + "/shrunk.tmp"
+	var err error
+	if p := vh.Catch(func() { err = c14.ShrinkSnapshot(fp, nfp, fs) }); p != "" || err != nil {
+		st.Violation(id, fmt.Sprintf("shrink: %s: ShrinkSnapshot failed (%v %s)", what, err, p))
+		return
+	}
+	nf := getFile(fs, nfp)
+	d, failed := loadVia(nf)
+	if failed || !bytes.Equal(d, c14.GetEmptyLRUSession()) || shrunkStr(nf) != "1" {
+		st.Violation(id, fmt.Sprintf("shrink: %s: the shrunk snapshot does not load as the empty payload through the decompressor its header names: loaded %s failed=%v shrunk=%s", what, vh.Hex(d), failed, shrunkStr(nf)))
+	}
 }
 
 // ---------------------------------------------------------------- CZ (monitor only)
@@ -761,34 +824,12 @@ func runCZ(id string, comp int, ops []string, seed uint64, st *vh.Stats) string 
 	if w.GetPayloadSize(cw.BytesWritten())+1024 != uint64(len(f)) {
 		st.Violation(id, fmt.Sprintf("size: recorded size %d+1024 but the file has %d bytes", w.GetPayloadSize(cw.BytesWritten()), len(f)))
 	}
-	load := func(img []byte) (data []byte, failed bool) {
-		lfs := newFS()
-		putFile(lfs, fp, img)
-		p := vh.Catch(func() {
-			r, h, err := c14.NewSnapshotReader(fp, lfs)
-			if err != nil {
-				failed = true
-				return
-			}
-			cr := c14.NewDecompressor(h.CompressionType, r)
-			d, err := io.ReadAll(cr)
-			data = d
-			if err != nil {
-				failed = true
-			}
-			if err := cr.Close(); err != nil {
-				failed = true
-			}
-		})
-		if p != "" {
-			failed = true
-		}
-		return
-	}
+	load := loadVia
 	d, failed := load(f)
 	if failed || !bytes.Equal(d, payload) {
 		st.Violation(id, fmt.Sprintf("roundtrip: compression %d: loaded %s (failed=%v), saved %s", comp, vh.Hex(d), failed, vh.Hex(payload)))
 	}
+	shrinkLoads(id, fmt.Sprintf("snapshot saved with compression %d", comp), f, st)
 	pad := headerPadStart(f)
 	r := vh.NewRand(seed)
 	var bits []int
